@@ -28,7 +28,7 @@ RULE = (
 )
 ASSUMPTIONS = ["x64 enabled; float32 cases pass float32 arrays to the public Gramian routine"]
 REQUIRED_LABELS = ["mode:iwp", "mode:gram", "mode:expprior", "mode:compose", "order:3", "order:5", "order:7", "order:9", "order:13", "dtype:float32",
-                   "prior:ou", "prior:matern", "doublings>=1"]
+                   "prior:ou", "prior:matern", "doublings>=1", "diffuse_derivatives"]
 MAX_INCONCLUSIVE = 0.2
 ORDERS = [3, 5, 7, 9, 13]
 
@@ -54,7 +54,10 @@ def _case(draw):
         d = draw(st.integers(1, 3))
         case.update(kind=draw(st.sampled_from(["ou", "matern", "general"])), q=q, d=d, log_h=draw(gen.exponent(-4.0, 1.0)),
                     theta=draw(gen.mat(3, 3, gen.quarter(-8, 8))), log_ell=draw(gen.exponent(-1.0, 1.0)),
-                    G=draw(gen.mat(3, 18, gen.quarter(-4, 4))), log_base=draw(gen.vec(3, gen.exponent(-2.0, 2.0))), log_scale=draw(gen.exponent(-2.0, 2.0)))
+                    G=draw(gen.mat(3, 18, gen.quarter(-4, 4))), log_base=draw(gen.vec(3, gen.exponent(-2.0, 2.0))), log_scale=draw(gen.exponent(-2.0, 2.0)),
+                    # the highest k coefficients may be "diffuse derivatives" of the constructor: the SDE (drift, dispersion) of the q+1
+                    # coefficients must be the same however they were declared
+                    diffuse=draw(st.sampled_from([0, 0, 1, 2])))
     return case
 
 
@@ -154,24 +157,26 @@ def check_case(case):
     return _iwp(res, case)
 
 
-def _make_prior(fact, kind, q, d, base, case):
+def _make_prior(fact, kind, q, d, base, case, diffuse=0):
     import jax.numpy as jnp
 
     from probdiffeq import probdiffeq as pd
 
     ssm = lib.ssm(fact)
-    tc = [jnp.zeros((d,)) for _ in range(q + 1)]
+    k = min(int(diffuse), q)  # at least one coefficient is given explicitly
+    tc = [jnp.zeros((d,)) for _ in range(q + 1 - k)]
+    kw = dict(diffuse_derivatives=k) if k else {}
     scale = jnp.asarray(base[0]) if fact == "isotropic" else jnp.asarray(base[:d])
     if kind == "iwp":
-        return ssm.prior_wiener_integrated(tc, output_scale=scale)
+        return ssm.prior_wiener_integrated(tc, output_scale=scale, **kw)
     if kind == "ou":
         theta = jnp.asarray(np.asarray(case["theta"], float)[:d, :d])
-        return ssm.prior_ornstein_uhlenbeck_integrated(lambda s: theta @ s, tc, output_scale=scale)
+        return ssm.prior_ornstein_uhlenbeck_integrated(lambda s: theta @ s, tc, output_scale=scale, **kw)
     if kind == "matern":
-        return ssm.prior_matern(10.0 ** case["log_ell"], tc, output_scale=scale)
+        return ssm.prior_matern(10.0 ** case["log_ell"], tc, output_scale=scale, **kw)
     G = jnp.asarray(np.asarray(case["G"], float)[:d, : (q + 1) * d] * 0.5)
     ode = pd.ode_autonomous_order_arbitrary(lambda *a: G @ jnp.concatenate(a), num_tcoeffs_in_args=q + 1, jacobian=pd.jacobian_materialize())
-    return ssm.prior_exponential(ode, tc, output_scale=scale)
+    return ssm.prior_exponential(ode, tc, output_scale=scale, **kw)
 
 
 def _transition_dense(fact, prior, h, sigma, n, d):
@@ -309,7 +314,9 @@ def _expprior(res, case):
         h = 50.0 / np.linalg.norm(Fd, 1)
     res.nontrivial = q >= 2
     with common.lib_call("exponential prior"):
-        prior = _make_prior("dense", kind, q, d, base, case)
+        prior = _make_prior("dense", kind, q, d, base, case, diffuse=case.get("diffuse", 0))
+        if min(int(case.get("diffuse", 0)), q) > 0:
+            res.label("diffuse_derivatives")
         F, c, Q, _ = _transition_dense("dense", prior, h, sigma, n, d)
     Bd = np.zeros((n * d, d))
     Bd[q * d :, :] = np.diag(base * sigma)
